@@ -15,6 +15,7 @@ import (
 	"github.com/hashicorp/hcl-lang/reference"
 	"github.com/hashicorp/hcl-lang/schema"
 	"github.com/hashicorp/hcl/v2"
+	"github.com/hashicorp/hcl/v2/hclsyntax"
 	"github.com/zclconf/go-cty/cty"
 )
 
@@ -70,13 +71,16 @@ func runC09(run *Run, replay string) {
 			for ti := range ts {
 				t := ts[ti]
 				if parent != nil {
-					if len(parent.Addr) > 0 && len(t.Addr) > 0 {
+					// (in arbitrary schemas a Reference constraint with an Address declares the referenced
+					// address itself as a target, wherever it is written: the one-step rule is checked on the
+					// ground-truth language only)
+					if len(parent.Addr) > 0 && len(t.Addr) > 0 && sc.Kind == "tf" {
 						if len(t.Addr) != len(parent.Addr)+1 || !strings.HasPrefix(t.Addr.String(), parent.Addr.String()) {
 							run.Violate(Violation{Key: "C09/nested-address-not-one-step", Rule: "nested targets extend their parent's address by exactly one step", Func: "CollectReferenceTargets",
 								Detail: fmt.Sprintf("parent %s, nested %s", parent.Addr.String(), t.Addr.String()), Replay: locWith(loc, q)})
 						}
 					}
-					if len(parent.LocalAddr) > 0 && len(t.LocalAddr) > 0 {
+					if len(parent.LocalAddr) > 0 && len(t.LocalAddr) > 0 && sc.Kind == "tf" {
 						if len(t.LocalAddr) != len(parent.LocalAddr)+1 || !strings.HasPrefix(t.LocalAddr.String(), parent.LocalAddr.String()) {
 							run.Violate(Violation{Key: "C09/nested-local-address-not-one-step", Rule: "nested targets extend their parent's (local) address by exactly one step", Func: "CollectReferenceTargets",
 								Detail: fmt.Sprintf("parent %s, nested %s", parent.LocalAddr.String(), t.LocalAddr.String()), Replay: locWith(loc, q)})
@@ -138,8 +142,9 @@ func runC09(run *Run, replay string) {
 							nested[n.Addr.String()] = true
 						}
 					}
+					typeAware := map[string]bool{"str": true, "num": true, "any": true, "dyn": true, "strs": true, "zone": true, "region": true, "project": true, "tags": true}
 					for _, a := range dcl.Attrs {
-						if !nested[dcl.Addr+"."+a] {
+						if typeAware[a] && !nested[dcl.Addr+"."+a] {
 							run.Violate(Violation{Key: "C09/written-attribute-without-nested-target", Rule: "nested targets for the attributes of a body-as-data block", Func: "CollectReferenceTargets",
 								Detail: dcl.Addr + "." + a, Replay: locWith(loc, q)})
 						}
@@ -305,7 +310,13 @@ func runC08(run *Run, replay string) {
 					m["candidate"] = c.Label
 					m["buffer"] = nsrc
 					if !strings.HasPrefix(c.Label, typed) {
-						run.Violate(Violation{Key: "C08/reference-candidate-ignores-typed-text", Rule: "every reference candidate starts with the typed text", Func: "Reference.CompletionAtPos",
+						key := "C08/reference-candidate-ignores-typed-text"
+						if exprAtIsParserPlaceholder(pd2, pos) {
+							// the parser could not recover the half-typed expression at all: the syntax tree holds a
+							// placeholder literal in its place and the library completes as for an empty value
+							key += "/expression-replaced-by-parser-placeholder"
+						}
+						run.Violate(Violation{Key: key, Rule: "every reference candidate starts with the typed text", Func: "Reference.CompletionAtPos",
 							Detail: fmt.Sprintf("typed %q, candidate %q", typed, c.Label), Replay: m})
 					}
 					ts, ok := known[c.Label]
@@ -344,4 +355,26 @@ func runC08(run *Run, replay string) {
 		}
 	}
 	_ = schema.Reference{}
+}
+
+// exprAtIsParserPlaceholder: is the attribute value around the position a placeholder the parser
+// put in place of an expression it could not recover (a literal of unknown value)?
+func exprAtIsParserPlaceholder(pd *PathData, pos hcl.Pos) bool {
+	f := pd.Ctx.Files["main.tf"]
+	body, ok := f.Body.(*hclsyntax.Body)
+	if !ok {
+		return false
+	}
+	found := false
+	hclsyntax.VisitAll(body, func(n hclsyntax.Node) hcl.Diagnostics {
+		if a, ok := n.(*hclsyntax.Attribute); ok {
+			if a.SrcRange.ContainsPos(pos) || a.SrcRange.End.Byte == pos.Byte {
+				if lit, ok := a.Expr.(*hclsyntax.LiteralValueExpr); ok && !lit.Val.IsKnown() {
+					found = true
+				}
+			}
+		}
+		return nil
+	})
+	return found
 }
